@@ -111,6 +111,24 @@ def wfBFields : List (String × CType F) → Bool
 end
 
 mutual
+/-- every `leaf` holds one of the seven non-container kinds (part of `WF`; containers are `CType` nodes) -/
+def Leafy : CType F → Prop
+  | leaf t => t.isLeafKind = true
+  | text _ => True
+  | array e _ _ => Leafy e
+  | tuple es => LeafyList es
+  | limits m => Leafy m
+  | status _ => True
+  | struct ms _ _ => LeafyFields ms
+def LeafyList : List (CType F) → Prop
+  | [] => True
+  | t :: ts => Leafy t ∧ LeafyList ts
+def LeafyFields : List (String × CType F) → Prop
+  | [] => True
+  | (_, t) :: ts => Leafy t ∧ LeafyFields ts
+end
+
+mutual
 /-- no `LimitsType` anywhere in the tree (true of everything `get_datatype` builds) -/
 def limitsFree : CType F → Bool
   | leaf _ => true
